@@ -63,6 +63,8 @@ def build_file(lang, tag, places, r, style, run_at_end=False):
             if style == "commented" and i == 1:
                 lines.append(f"{ind}{extra}{'#' if py else '//'} explanatory note {tag}")
                 lines.append("")
+            if style == "commented-late" and r >= 3 and i == r - 2:
+                lines += [f"{ind}{extra}{'#' if py else '//'} note {n} {tag}" for n in (1, 2, 3)]
             s = pool[i]
             if style == "spaced" and i % 2 == 0:
                 s = s.replace(" = ", "  =  ").replace(", ", ",   ")
@@ -97,10 +99,11 @@ def make_h(tier):
         r = ctx.pick("run_length", (1, 2, 3, 4, 5) if quick else (1, 2, 3, 4, 5, 6, 7))
         layout = ctx.pick("layout", ("A+B", "A+A", "A+B+C", "A+A+B", "A-only-once") if quick else
                           ("A+B", "A+A", "A+B+C", "A+A+B", "A-only-once", "A+A+A", "A+B+B+C"))
-        style = ctx.pick("style", ("plain", "indented", "commented", "spaced", "trailing-comment"))
+        style = ctx.pick("style", ("plain", "indented", "commented", "commented-late", "spaced", "trailing-comment"))
         off = ctx.pick("offset", (0, 1, 3))
         at_end = ctx.flag("run_at_end_of_last_file") if lang == "python" else False
         minocc = ctx.int("min_occurrences", 1)
+        decoys = ctx.flag("decoy_files_with_same_lines_in_other_order")
         files = {}
         for t in layout.replace("-only-once", "").split("+"):
             files[t] = files.get(t, 0) + 1
@@ -117,6 +120,22 @@ def make_h(tier):
                 p.write_text("\n".join(L) + "\n")
                 occs[str(p)] = occ
                 texts[str(p)] = L
+            decoy_paths = []
+            if decoys:
+                # not duplicates: the run's statements in reverse order, and blocks that differ in a doubled line
+                py = lang == "python"
+                pool = POOL if py else JS_POOL
+                endc, ind = ("", "    ") if py else (";", "  ")
+                for tag, body in (("y", list(reversed(pool[:max(r, 2)])) + [f"y_gap = y_stage(state, 71){endc}",
+                                        f"y_twice = y_double(state, 5){endc}", f"y_twice = y_double(state, 5){endc}", pool[-1]]),
+                                  ("z", [f"z_twice = z_double(state, 9){endc}", f"z_twice = z_double(state, 9){endc}", pool[-1]])):
+                    L = [f"def handler_{tag}(order, customer, region, state):" if py else f"function handler{tag}(order, customer, region, state) {{"]
+                    L += [ind + b for b in body] + [f"{ind}{tag}_end = {tag}_close(state, 3){endc}", f"{ind}return state{endc}"] + ([] if py else ["}"])
+                    p = d / f"mod_{tag}{ext}"
+                    p.write_text("\n".join(L) + "\n")
+                    occs[str(p)] = []
+                    texts[str(p)] = L
+                    decoy_paths.append(str(p))
             m = sum(len(o) for o in occs.values())
             ign.clear_ignore_parser_cache()
             cfg = {"dry": {"enabled": True, "min_duplicate_lines": w, "min_occurrences": minocc,
@@ -128,6 +147,8 @@ def make_h(tier):
             ign.clear_ignore_parser_cache()
         ctx.note("planted_places", m)
         ctx.cover("reported" if vs else "silent")
+        in_decoy = [(Path(v.file_path).name, v.line, v.message[:70]) for v in vs if v.file_path in decoy_paths]
+        ctx.require("no-violation-in-a-file-without-a-shared-run", not in_decoy, got=in_decoy[:3], w=w, r=r)
         spans = []
         for v in vs:
             mm = _MSG.match(v.message)
